@@ -272,13 +272,14 @@ def Upper {k : Nat} (U : Mat α k n) : Prop :=
 def PivInjective (piv : Vector (Fin m) m) : Prop :=
   ∀ (i j : Fin m), piv[i.val]'i.isLt = piv[j.val]'j.isLt → i = j
 
-/-- number of inversions of the pivot vector below position `i` -/
-def inversionsAt (piv : Vector (Fin m) m) (i : Fin m) : Nat :=
-  Fin.foldl m (fun c j => if j.val < i.val ∧ (piv[i.val]'i.isLt).val < (piv[j.val]'j.isLt).val then c + 1 else c) 0
-
-/-- `(-1)^(number of inversions)`: the sign of the row permutation -/
+/-- the sign of the row permutation as the product over all position pairs `i < j` of
+`+1` (in order) / `-1` (inversion) -/
 def pivSignOf (piv : Vector (Fin m) m) : Int :=
-  if (Fin.foldl m (fun c i => c + inversionsAt piv i) 0) % 2 = 0 then 1 else -1
+  Fin.foldl m (fun acc j =>
+    acc * Fin.foldl m (fun a i =>
+      a * (if i.val < j.val then
+            (if (piv[i.val]'i.isLt).val < (piv[j.val]'j.isLt).val then 1 else -1)
+          else 1)) 1) 1
 
 end Spec
 
